@@ -15,6 +15,7 @@
 #include <stdio.h>
 #include <stdbool.h>
 #include <stddef.h>
+#include "ghost.h"
 
 /* reachability points: in the -DVERIF_VACUITY build each must FAIL (i.e. be reachable) */
 #ifdef VERIF_VACUITY
@@ -38,13 +39,9 @@ static FILE verif_stdout_obj, verif_stderr_obj, verif_stdin_obj, verif_file_obj;
 #define stdin  (&verif_stdin_obj)
 
 /* ---- ghost state ------------------------------------------------------------------- */
-static unsigned g_diag;            /* diagnostics written to stderr (saturating) */
-static unsigned g_wfail;           /* number of stdout writes that have failed */
-#define g_write_failed (g_wfail != 0)
-static unsigned g_out_events;      /* stdout events (saturating) */
-static _Bool g_strict_io = 1;
 
-static void g_diag_inc(void) { if (g_diag < 0xFFFFFFF0u) g_diag++; }
+static void mon_on_diag(void);     /* spec/basic_line_monitor.h */
+static void g_diag_inc(void) { if (g_diag < 0xFFFFFFF0u) g_diag++; mon_on_diag(); }
 
 /* ---- line monitor interface (defined in spec/basic_line_monitor.h) -------------------- */
 static void mon_event_chr(int c);
@@ -109,16 +106,9 @@ static void verif_perror(const char *s) { (void)s; g_diag_inc(); }
 
 /* ---- input: the ghost file ------------------------------------------------------------ */
 #ifndef VERIF_FILE_MAX
-#define VERIF_FILE_MAX (1u << 24)   /* stated assumption: inputs of at most 16 MiB */
+#define VERIF_FILE_MAX (((size_t)1) << 24)   /* stated assumption: inputs of at most 16 MiB */
 #endif
-extern unsigned char g_file[VERIF_FILE_MAX];   /* contents: unconstrained */
-static size_t g_len;               /* length: unconstrained up to VERIF_FILE_MAX */
-static size_t g_pos;               /* cursor */
-static _Bool g_eof_seen;           /* the code has been told EOF */
-static _Bool g_rd_err;             /* error indicator of the input stream */
-static _Bool g_read_error_happened;
-static const void *g_last_fread_dst;
-static size_t g_last_fread_n;
+extern unsigned char g_file[__CPROVER_constant_infinity_uint];   /* contents: unconstrained */
 
 static void fmon_consume(size_t n);     /* spec/basic_file_monitor.h */
 static void fmon_eof(void);
@@ -132,11 +122,6 @@ static int verif_getc(FILE *f)
       fmon_eof();
       return EOF;
     }
-  if (nondet_bool())   /* read error: indistinguishable from EOF for getc's caller */
-    {
-      g_rd_err = 1; g_read_error_happened = 1;
-      return EOF;
-    }
   {
     int c = g_file[g_pos];
     g_pos++;
@@ -145,10 +130,11 @@ static int verif_getc(FILE *f)
   }
 }
 
+
 static size_t verif_fread(void *dst, size_t size, size_t n, FILE *f)
 {
-  size_t want = n, got, i;
-  (void)f; (void)size;           /* every fread in basic/ uses size 1 (asserted) */
+  size_t want = n, got;
+  (void)f;
   __CPROVER_assert(size == 1, "model: fread element size is 1");
   got = g_len - g_pos;
   if (got > want) got = want;
@@ -158,8 +144,17 @@ static size_t verif_fread(void *dst, size_t size, size_t n, FILE *f)
       size_t cut = nondet_size_t();
       if (cut < got) { got = cut; g_rd_err = 1; g_read_error_happened = 1; }
     }
-  for (i = 0; i < got; ++i)
-    ((unsigned char *)dst)[i] = g_file[g_pos + i];
+  /* Contents: fread stores file bytes in dst[0..got).  Modelled as: the whole object dst points into becomes
+     unconstrained (an over-approximation of every store fread can make), then the cell at the
+     ghost index and the last cell delivered are pinned to the file's bytes.  Sound for any code
+     (real contents are one of the modelled possibilities); precise enough because a consumer's
+     contract states its element-wise facts at the ghost index. */
+  if (want > 0)
+    {
+      __CPROVER_havoc_object(dst);
+      if (fmon_gk < got) ((unsigned char *)dst)[fmon_gk] = g_file[g_pos + fmon_gk];
+      if (got > 0) ((unsigned char *)dst)[got - 1] = g_file[g_pos + got - 1];
+    }
   g_pos += got;
   g_last_fread_dst = dst;
   g_last_fread_n = got;
